@@ -133,6 +133,13 @@ CHECKS = {
         "trusted: raw DuckDB catalog and directory listing as ground truth; not demanded: whether create_database_on_connect=False attaches an existing file (taken from ground truth), CURRENT_* when there is no context",
         "explicit-state model checking (bounded BFS over connect sequences from the complete configuration product) against an option-table reference model",
     ),
+    "C16": (
+        "E2-product",
+        "exploration",
+        "complete enumeration of statement texts: 6 literal templates x literal contents (quotes, ;, --, /* */, $$, backslash, newline, unicode) x 16 separator/comment styles x cursor class x return_cursors; every sequence over 13 statement kinds (incl. a runtime-failing and an unparsable statement, BEGIN/COMMIT/ROLLBACK) up to the length bound; 58 statement kinds x styles; statement-free texts; nop_regexes pattern sets x matching/non-matching statements x execute/execute_string. Each text runs through conn.execute_string on one fresh instance and statement by statement through cursor.execute on another; an independent splitter written from Snowflake's lexical rules fixes the statement count and the literal values",
+        "trusted: mc/ref/sf_split.py (selftested; cross-checked against the composition of every text); not demanded: message text, cursors of statements before a failing one, // comments, remove_comments",
+        "bounded exhaustive enumeration (finite input product) with a differential oracle (execute_string vs one-by-one execution) and an independent reference splitter",
+    ),
 }
 
 NOT_BUILT = "check not built yet in this round (planned per DESIGN.md §3); no claim is made"
